@@ -1001,3 +1001,9 @@ func sameList(l *lists.List[int], rl *clist.List) bool {
 	}
 	return e == nil
 }
+
+// ModelKey is the layout-independent state key (see seqmc.ModelKeyer): the fingerprint of the REFERENCE
+// structures (container/list, container/ring), which is a function of the operation history whatever
+// the fork does with its memory.
+func (x *lh) ModelKey() string { return fp.Of(x.R[0], x.R[1], &x.hr, &x.zombie) }
+func (x *rh) ModelKey() string { return fp.Of(&x.hr) }
